@@ -24,6 +24,8 @@ VARIANTS = {
     "asan": ("clang", f"{SAN} {GUARD}", ["-DXZ_SANDBOX=no"], ["liblzma"]),
     "sched": ("clang", f"{SAN} {GUARD} -include {SCHED_INC}", ["-DXZ_SANDBOX=no"], ["liblzma"]),
     "tsan": ("clang", f"-O1 -g -fno-omit-frame-pointer -fsanitize=thread {GUARD}", ["-DXZ_SANDBOX=no"], ["liblzma"]),
+    # no sanitizers: for valgrind memcheck (uninitialised reads incl. the x86-64 inline-asm range decoder, which MSan cannot see)
+    "vg": ("clang", f"-O1 -gdwarf-4 -fno-omit-frame-pointer {GUARD}", ["-DXZ_SANDBOX=no"], ["liblzma"]),
     "gen": ("clang", f"{SAN} {GUARD}", ["-DXZ_SANDBOX=no", "-DXZ_CLMUL_CRC=OFF"], ["liblzma"]),
     "small": ("clang", f"{SAN} {GUARD}", ["-DXZ_SANDBOX=no", "-DXZ_SMALL=ON"], ["liblzma"]),
     "clmul": ("clang", f"{SAN} {GUARD} -mssse3 -msse4.1 -mpclmul", ["-DXZ_SANDBOX=no"], ["liblzma"]),
@@ -123,7 +125,7 @@ def build_target(name, variant="asan", src=None, extra_flags=(), fuzzer=True, ou
     """Compile harness/<src or name>.cc against the given lib variant -> build/bin/<out_name>."""
     d = build_lib(variant)
     lib = os.path.join(d, "liblzma.a")
-    if variant == "tsan":
+    if variant in ("tsan", "vg"):
         # no coverage counters under TSan (their non-atomic increments are data races): plain driver instead of libFuzzer
         fuzzer = False
         extra_src = tuple(extra_src) + ("harness/minidrv.cc",)
@@ -135,7 +137,9 @@ def build_target(name, variant="asan", src=None, extra_flags=(), fuzzer=True, ou
         deps = harness_sources() + [lib]
         if os.path.exists(out) and os.stat(out).st_mtime >= _newest(deps):
             return out
-        if variant == "tsan":
+        if variant == "vg":
+            san = "-DVERIF_NO_SANITIZER=1 -gdwarf-4"  # valgrind 3.19 cannot read DWARF 5
+        elif variant == "tsan":
             san = "-fsanitize=thread" + (",fuzzer" if fuzzer else "")
         else:
             san = "-fsanitize=address,undefined" + (",fuzzer" if fuzzer else "") + " -fno-sanitize-recover=undefined"
